@@ -208,10 +208,12 @@ static void check_product(const char* what, uint64_t N, const int64_t* a, const 
   cnt("products_checked", 1);
 }
 
+// dispatch configuration in case keys: "" native, else ",generic" / ",avx2-only" / ",fma-only" (hook H1 masks the two CPU features separately)
+static const char* dsfx(int cfg) { return cfg == DISP_NATIVE ? "" : (cfg == DISP_GENERIC ? ",generic" : (cfg == DISP_AVX2_ONLY ? ",avx2-only" : ",fma-only")); }
 static void small_product_case(uint64_t N, int fam, int native, unsigned rep) {
   char key[96];
-  snprintf(key, sizeof key, "znx_small_single_product|%s%s", famn[fam], native ? "" : ",generic");
-  if (!case_begin(key, "N=%" PRIu64 " fam=%s disp=%s rep=%u", N, famn[fam], native ? "native" : "generic", rep)) return;
+  snprintf(key, sizeof key, "znx_small_single_product|%s%s", famn[fam], dsfx(native));
+  if (!case_begin(key, "N=%" PRIu64 " fam=%s disp=%s rep=%u", N, famn[fam], disp_name[native & 3], rep)) return;
   const MODULE* mod = get_module(N, FFT64, native);
   gbuf_t ga, gb, gr, gt;
   int64_t* a = gb_alloc(&ga, N * 8, 8, 8 * (rep % 8), 4096);
@@ -251,8 +253,8 @@ static void svp_case(uint64_t N, int fam, int native, int tmp_a, uint64_t res_si
   const int short_dft = (tmp_a & 4) != 0, long_dft = (tmp_a & 8) != 0;
   tmp_a &= 3;
   static const char* const idn[] = {"idft", "idft_tmp_a", "idft(res==a_dft)"};
-  snprintf(key, sizeof key, "svp_apply_dft+%s%s|%s,%s%s", idn[tmp_a], short_dft ? ",short-dft" : (long_dft ? ",long-dft" : ""), famn[fam], res_size > a_size ? "res>a" : (res_size == a_size ? "res=a" : "res<a"), native ? "" : ",generic");
-  if (!case_begin(key, "N=%" PRIu64 " fam=%s disp=%s res=%" PRIu64 " a=%" PRIu64 " asl=%u rep=%u", N, famn[fam], native ? "native" : "generic", res_size, a_size, aslc, rep)) return;
+  snprintf(key, sizeof key, "svp_apply_dft+%s%s|%s,%s%s", idn[tmp_a], short_dft ? ",short-dft" : (long_dft ? ",long-dft" : ""), famn[fam], res_size > a_size ? "res>a" : (res_size == a_size ? "res=a" : "res<a"), dsfx(native));
+  if (!case_begin(key, "N=%" PRIu64 " fam=%s disp=%s res=%" PRIu64 " a=%" PRIu64 " asl=%u rep=%u", N, famn[fam], disp_name[native & 3], res_size, a_size, aslc, rep)) return;
   rng_t* r = crng();
   const MODULE* mod = get_module(N, FFT64, native);
   const uint64_t dsize = short_dft ? (a_size < res_size ? a_size : res_size) : (long_dft ? res_size + 2 : res_size);
@@ -561,6 +563,14 @@ void run_C01(void) {
           if (rep <= 1) svp_case(N, fam, native, (int)((ctr + rep) % 3) | 8, N >= 16384 && !th ? 1 : 1 + (ctr % 3), N >= 16384 && !th ? 3 : 1 + (ctr / 3) % 5, (ctr + 1) % 4, rep + 70);
           if (rep <= 1) svp_case(N, fam, native, (rep ? 2 : (int)(ctr % 3)) | 4, N >= 16384 && !th ? 2 : 1 + (ctr % 4), N >= 16384 && !th ? 1 : (ctr / 4) % 4, ctr % 4, rep + 50);
         }
+    // the two mixed CPU-feature configurations (avx2 without fma, fma without avx2): the library gates its kernels on both separately
+    for (int fam = 0; fam < NFAM; fam++)
+      for (int cfg = DISP_AVX2_ONLY; cfg <= DISP_FMA_ONLY; cfg++)
+        for (unsigned rep = 0; rep < (th ? 6u : (N <= 4096 ? 2u : 1u)); rep++) {
+          ctr++;
+          small_product_case(N, fam, cfg, rep);
+          svp_case(N, fam, cfg, (int)(ctr % 3), N >= 16384 && !th ? 1 : 1 + (ctr % 3), N >= 16384 && !th ? 1 : 1 + (ctr / 3) % 3, ctr % 4, rep);
+        }
     if (N <= (th ? 4096u : 256u))
       for (int native = 1; native >= 0; native--)
         for (unsigned rep = 0; rep < (th ? 8u : 1u); rep++) greedy_case(N, native, rep);
@@ -593,4 +603,15 @@ void run_C01(void) {
   // modules / tables created, used and destroyed in random order, several alive at once
   for (unsigned rep = 0; rep < (G.thorough ? 240u : 24u); rep++)
     ops_lifecycle_case("C01 objects", LKM_MOD_FFT64 | LKM_REIM_FFT | LKM_REIM_IFFT | LKM_REIM_MUL, (rep % 4) == 3 ? DISP_GENERIC : DISP_NATIVE, 160, 0, rep, "lifecycle_uses");
+  // the entry points of this property called a second time on the SAME buffers holding other data (new values, two limbs exchanged,
+  // one word moved between limbs): must equal a fresh call on that data (results or operands remembered by address)
+  {
+    static const char* const RNAMES[] = {"znx_small_single_product", "svp_prepare", "svp_apply_dft", "vec_znx_dft", "vec_znx_idft", "vec_znx_idft_tmp_a", "vec_znx_idft(res==a_dft)"};
+    static const uint64_t RN[] = {2, 16, 64, 1024};
+    for (size_t i = 0; i < ARRAY_LEN(RN); i++)
+      for (int cfg = DISP_NATIVE; cfg >= DISP_GENERIC; cfg--) {
+        if (cfg == DISP_GENERIC && (i & 1)) continue;
+        ops_recontent_case("C01 entry points", RNAMES, (int)ARRAY_LEN(RNAMES), RN[i], cfg, G.thorough ? 40 : 6, (unsigned)i, "same_buffers_other_data_calls");
+      }
+  }
 }
